@@ -238,6 +238,8 @@ def judge_term(term, ns, ann, res, case, only=None):
         if only is not None and only != ["u", lab]:
             continue
         exp = call(ref)
+        if exp.ok and term.kind == "dict" and getattr(term, "origin", dict) is not dict and type(exp.val) is dict:
+            exp = Out(True, term.origin(exp.val))  # a concrete mapping class as target (collections.OrderedDict[K, V]): the composite is rebuilt as that class
         got = call(bu.val, fx())
         res.evals += 1
         res.outcomes.add(h64(term.src, "u", lab, "ok" if got.ok else got.excname, exp.ok))
